@@ -72,7 +72,7 @@ theorem syncFinish_reply (v : Variant) (s s' : State) (g : Nat) (st : Group) (mi
 requesting member in the group's stored assignment map: the group is Stable after the request, the
 member is a current member, the generation is the group's, and the reply is `assignments[member]`
 of that state — computed once, by the leader's sync, with `assignPartitions`. -/
-theorem _root_.KafVerif.C12.sync_reply_is_assignment (v : Variant) (s s' : State) (g mid gen : Nat) (a : Asg)
+theorem _root_.KafVerif.C12.sync_reply_is_assignment (v : Variant) (s s' : State) (g mid : Nat) (gen : Int) (a : Asg)
     (h : sync v s g mid gen = (s', .sync NONE a)) :
     ∃ st, lookup s'.groups g = some st ∧ a = asgOf st mid ∧ (lookup st.members mid).isSome ∧ gen = st.gen ∧
       (st.phase = .stable ∨ (a ≠ [] ∧ st.phase ≠ .preparing)) := by
